@@ -23,6 +23,7 @@ from harness.common import lean, pya
 
 PROP = "C19"
 LEAN_PROP = "PyaModel.Props.C19"
+NAMESPACE = "Pya.C19"
 LEAN_TARGETS = ["PyaModel.Spec.OpsSpec", "PyaModel.Generated.OpTables"]
 _ANCHORS = [
     ("pyanalyze/implementation.py", "_sequence_common_getitem_impl"),
@@ -458,7 +459,7 @@ def translate(ctx):
         lines = ["import PyaModel.Spec.OpsSpec",
                  "/-! GENERATED by harness/props/c19.py translate() from the live pyanalyze tree and CPython — do not edit.",
                  "Part %d of the C19 operation table (rows %d‥%d). Legend: Generated/OpTables.lean. -/" % (part, part * per, part * per + len(chunk) - 1),
-                 "namespace Pya", "namespace Ops", ""]
+                 "namespace Pya.C19", ""]
         subs = []
         for s0 in range(0, len(chunk), 400):
             name = "opTable%d_%d" % (part, s0 // 400)
@@ -469,7 +470,7 @@ def translate(ctx):
         lines.append("theorem opTable%d_agree : opTable%d.all (fun x => D19 x || agree x) = true := by decide +kernel" % (part, part))
         lines.append("theorem opTable%d_conforms : opTable%d.all conforms = true := by decide +kernel" % (part, part))
         lines.append("theorem opTable%d_spec : opTable%d.all specMatches = true := by decide +kernel" % (part, part))
-        lines += ["", "end Ops", "end Pya", ""]
+        lines += ["", "end Pya.C19", ""]
         lean.write_if_changed(os.path.join(GEN, "OpTables%d.lean" % part), "\n".join(lines))
     parts = ["opTable%d" % i for i in range(NPARTS)]
     legend = ["operands: " + ", ".join("%d=%s" % (i + 1, s) for i, s in enumerate(QUICK_OPERANDS)),
@@ -483,14 +484,14 @@ def translate(ctx):
     top = ["import PyaModel.Generated.OpTables%d" % i for i in range(NPARTS)]
     top += ["/-! GENERATED by harness/props/c19.py translate() — do not edit.",
             "The C19 operation table: %d rows = the whole quick literal universe, both outcomes obtained on this run." % n,
-            "Row format: Spec/OpsSpec.lean `Row`. Legend:"] + ["  " + l for l in legend] + ["-/", "namespace Pya", "namespace Ops", ""]
+            "Row format: Spec/OpsSpec.lean `Row`. Legend:"] + ["  " + l for l in legend] + ["-/", "namespace Pya.C19", ""]
     top.append("def opTable : List Row := %s\n" % " ++ ".join(parts))
     for nm, pred in (("agree", "(fun x => D19 x || agree x)"), ("conforms", "conforms"), ("spec", "specMatches")):
         top.append("theorem opTable_%s_all : opTable.all %s = true := by\n  simp only [opTable, List.all_append, Bool.and_eq_true]\n  exact %s\n" % (
             nm, pred, _and_tree(["opTable%d_%s" % (i, nm) for i in range(NPARTS)])))
     top.append("theorem opTable_length : opTable.length = %d := by\n  simp only [opTable, List.length_append, %s]\n  decide +kernel\n" % (
         n, ", ".join(parts)))
-    top += ["end Ops", "end Pya", ""]
+    top += ["end Pya.C19", ""]
     lean.write_if_changed(os.path.join(GEN, "OpTables.lean"), "\n".join(top))
     ctx.extra["table_rows"] = n
 
@@ -874,15 +875,13 @@ def run_getitem(ctx, groups, with_model=True):
         ctx.count(1, **{"getitem_" + ("variadic" if star else "fixed"): 1, "getitem_len_%d" % len(shape): 1})
         if star or -len(shape) <= k < len(shape):
             ctx.nontriv("gi:%s:%s:%d" % (typ, shape, k))
-        mset = dcls = None
+        mset = None
         if model is not None:
             parts = dict(x.split("=", 1) for x in model[n].split(" ") if "=" in x)
-            mset, dcls = parts.get("set"), parts.get("D")
+            mset = parts.get("set")
             ctx.corr("getitem")
             ctx.tag("getitem_model_" + parts.get("res", "?")[:1])
-            if mset != ic and parts.get("fixed") != ic:
-                # the implementation must behave like the model of the pinned code (`getitem`) or like the
-                # repaired function (`getitemFixed`, proved sound for all inputs in Props/C19.lean)
+            if mset != ic:
                 ctx.disagree("getitem", case, ic, model[n])
             # spec validation: Lean elemAt/expand vs real indexing is done through `exp=` (classes over expansions 0..3)
             classes, n_err, n_ok = gi_oracle(typ, shape, k)
@@ -894,7 +893,7 @@ def run_getitem(ctx, groups, with_model=True):
             ctx.sample(dict(case, pyanalyze=ic, lean=model[n] if model else None))
         classes, n_err, n_ok = gi_oracle(typ, shape, k)
         conf = mset is None or mset == ic
-        cls = dcls if dcls not in (None, "-") else None
+        cls = None  # getitem has no exception class: Props/C19.getitem_variadic_sound holds for all inputs
         if ic == "ERR":
             if n_ok:
                 ctx.candidate(case, "index reported out of range but x[%d] exists for some expansion" % k, cls=cls, conforms=conf, stream="getitem")
